@@ -344,9 +344,12 @@ func embedRun(args []string) int {
 			without := db.SearchUniversal(q, full)
 			ev.WithoutAns = in2.answerID(c, toHits(without))
 			// build an index: vectors for the query's words, one embedding per command (sometimes fewer / more, sometimes none)
-			mode := r.Intn(6)
+			mode := r.Intn(8)
 			if mode > 0 {
 				dim := 8
+				if mode >= 6 { // the index goes through the two binary files and the real loaders (100 dimensions there)
+					dim = 100
+				}
 				idx := &embedding.Index{Dimension: dim, WordVectors: map[string][]float32{}}
 				for _, t := range strings.Fields(strings.ToLower(q)) {
 					v := make([]float32, dim)
@@ -362,6 +365,17 @@ func embedRun(args []string) int {
 				if mode == 5 {
 					n = n + 7
 				}
+				qdir := make([]float64, dim) // the direction of the query's own embedding
+				for _, wv := range idx.WordVectors {
+					for j := range wv {
+						qdir[j] += float64(wv[j])
+					}
+				}
+				qn := 0.0
+				for _, x := range qdir {
+					qn += x * x
+				}
+				qn = math.Sqrt(qn)
 				for k := 0; k < n; k++ {
 					v := make([]float32, dim)
 					for j := range v {
@@ -369,6 +383,27 @@ func embedRun(args []string) int {
 					}
 					if k%9 == 0 {
 						v = make([]float32, dim) // zero vector
+					}
+					if mode >= 6 { // a file whose first rows are unit length and whose later rows are not (long, and close to the query)
+						if k < 20 {
+							nn := 0.0
+							for _, x := range v {
+								nn += float64(x) * float64(x)
+							}
+							if nn > 0 {
+								for j := range v {
+									v[j] = float32(float64(v[j]) / math.Sqrt(nn))
+								}
+							}
+						} else if k%2 == 0 && qn > 0 {
+							for j := range v {
+								v[j] = float32(10*qdir[j]/qn) + v[j]/50
+							}
+						} else if k%3 == 0 {
+							for j := range v {
+								v[j] /= 40 // shorter than one
+							}
+						}
 					}
 					if mode == 3 { // a damaged table: NaN, infinities and huge components here and there
 						switch k % 7 {
@@ -383,6 +418,9 @@ func embedRun(args []string) int {
 						}
 					}
 					idx.CmdEmbeddings = append(idx.CmdEmbeddings, v)
+				}
+				if mode >= 6 {
+					idx = throughFiles(idx, tr)
 				}
 				db.VerifAttachEmbeddings(idx)
 				ev.Attached = true
@@ -526,4 +564,35 @@ func embedRun(args []string) int {
 	w.close()
 	fmt.Printf("{\"events\": %d, \"files\": %d}\n", w.n, len(files))
 	return 0
+}
+
+// throughFiles writes an index into the two binary files of the documented format and reads it back with the real loaders
+func throughFiles(idx *embedding.Index, tr int) *embedding.Index {
+	var wb, cb bytes.Buffer
+	binary.Write(&wb, binary.LittleEndian, uint32(len(idx.WordVectors)))
+	for w, v := range idx.WordVectors {
+		binary.Write(&wb, binary.LittleEndian, uint16(len(w)))
+		wb.WriteString(w)
+		binary.Write(&wb, binary.LittleEndian, v)
+	}
+	binary.Write(&cb, binary.LittleEndian, uint32(len(idx.CmdEmbeddings)))
+	binary.Write(&cb, binary.LittleEndian, uint32(idx.Dimension))
+	for _, v := range idx.CmdEmbeddings {
+		binary.Write(&cb, binary.LittleEndian, v)
+	}
+	wp := filepath.Join(tmpDir(), fmt.Sprintf("glove-%d.bin", tr))
+	cp := filepath.Join(tmpDir(), fmt.Sprintf("cmds-%d.bin", tr))
+	defer os.Remove(wp)
+	defer os.Remove(cp)
+	if os.WriteFile(wp, wb.Bytes(), 0o644) != nil || os.WriteFile(cp, cb.Bytes(), 0o644) != nil {
+		fatal("embedding files: cannot write")
+	}
+	loaded, err := embedding.LoadWordVectors(wp)
+	if err != nil {
+		fatal("a well-formed word vector file does not load: %v", err)
+	}
+	if err := loaded.LoadCommandEmbeddings(cp); err != nil {
+		fatal("a well-formed command embedding file does not load: %v", err)
+	}
+	return loaded
 }
